@@ -495,6 +495,45 @@ pub fn run_c13(cfg: &Cfg) -> i32 {
 
 // =============================================================================== C14
 
+/// numbers at and next to every width a reader might parse into, plus non-numbers that look like one
+const ABSURD: &[&str] = &[
+    "-1", "0", "1", "255", "256", "65535", "65536", "2147483647", "2147483648", "4294967295", "4294967296", "9223372036854775807", "9223372036854775808",
+    "18446744073709551613", "18446744073709551614", "18446744073709551615", "18446744073709551616", "340282366920938463463374607431768211455",
+    "340282366920938463463374607431768211456", "99999999999999999999999999999999999999999", "00000000000000000000000000000000000000001", "1e9", "0x7fffffff", "+3", " 5", "٣",
+];
+
+/// every number that is the whole content of an element or the whole value of an attribute, in
+/// every base, replaced by every ABSURD value: (base index, bytes)
+fn numeric_sweep(bases: &[Base]) -> Vec<(usize, Vec<u8>)> {
+    let mut out = Vec::new();
+    for (bi, b) in bases.iter().enumerate() {
+        let text = dom::serialise(&b.tree, &style_of(&[], b.kind));
+        let bytes = text.as_bytes();
+        let mut i = 0;
+        while i < bytes.len() {
+            if bytes[i].is_ascii_digit() {
+                let a = i;
+                while i < bytes.len() && bytes[i].is_ascii_digit() {
+                    i += 1;
+                }
+                let whole_content = a > 0 && bytes[a - 1] == b'>' && bytes.get(i) == Some(&b'<');
+                let whole_attr = a > 0 && (bytes[a - 1] == b'"' || bytes[a - 1] == b'\'') && bytes.get(i) == Some(&bytes[a - 1]);
+                if whole_content || whole_attr {
+                    for v in ABSURD {
+                        let mut m = bytes[..a].to_vec();
+                        m.extend_from_slice(v.as_bytes());
+                        m.extend_from_slice(&bytes[i..]);
+                        out.push((bi, m));
+                    }
+                }
+            } else {
+                i += 1;
+            }
+        }
+    }
+    out
+}
+
 fn mutate(r: &mut Prng, input: &[u8], other: &[u8]) -> (Vec<u8>, &'static str) {
     let mut v = input.to_vec();
     let len = v.len().max(1);
@@ -620,7 +659,7 @@ fn mutate(r: &mut Prng, input: &[u8], other: &[u8]) -> (Vec<u8>, &'static str) {
                 while e < s.len() && s.as_bytes()[e].is_ascii_digit() {
                     e += 1;
                 }
-                let big = r.pick_str(&["-1", "0", "18446744073709551615", "18446744073709551616", "99999999999999999999999999999999999", "4294967296", "1e9", "0x7fffffff", "+3", " 5", "٣"]);
+                let big = r.pick_str(ABSURD);
                 let mut o = s[..a].to_string();
                 o.push_str(big);
                 o.push_str(&s[e..]);
@@ -786,7 +825,15 @@ pub fn run_c14(cfg: &Cfg) -> i32 {
         });
     }
     let mut s = sess::establish_ok(&caps);
-    for i in 0..n {
+    // the deterministic part first (one shard's worth each): every numeric leaf x every absurd value
+    let sweep: Vec<(usize, Vec<u8>)> = numeric_sweep(&bases)
+        .into_iter()
+        .enumerate()
+        .filter(|(k, (bi, _))| (*k as u64) % cfg.shards.max(1) == cfg.shard && (cfg!(feature = "full") || !matches!(bases[*bi].kind, Kind::Candidates | Kind::Installed)) && (!miri || k % 23 == 0))
+        .map(|(_, c)| c)
+        .collect();
+    let nsweep = sweep.len() as u64;
+    for i in 0..n + nsweep {
         let idx = cfg.case_index(i);
         progress.store(i + 1, Ordering::SeqCst);
         let mut r = cfg.prng("C14", idx);
@@ -796,9 +843,16 @@ pub fn run_c14(cfg: &Cfg) -> i32 {
             base = &bases[4]; // a reply base: the agent's readers are not part of the interpreter build
         }
         let style = if r.chance(1, 3) { vec![Atom::Indent] } else { vec![] };
-        let text = dom::serialise(&base.tree, &style_of(&style, base.kind));
+        let mut text = dom::serialise(&base.tree, &style_of(&style, base.kind));
         let other_text = dom::serialise(&other.tree, &style_of(&[], other.kind));
-        let (mutated, mname) = mutate(&mut r, text.as_bytes(), other_text.as_bytes());
+        let (mutated, mname) = if i < nsweep {
+            let (bi, m) = &sweep[i as usize];
+            base = &bases[*bi];
+            text = dom::serialise(&base.tree, &style_of(&[], base.kind));
+            (m.clone(), "numeric-leaf-sweep")
+        } else {
+            mutate(&mut r, text.as_bytes(), other_text.as_bytes())
+        };
         if let Ok(mut g) = current.lock() {
             *g = format!("kind={} case_index={idx} mutation={mname} bytes={}", base.kind.name(), clip_bytes(&mutated, 2000));
         }
